@@ -254,3 +254,148 @@ def _classify(ctx, fi, recv, loaders, rebound):
             return "ok", kinds[0][1]
         return "unknown", "; ".join(w for _, w in kinds) or "no origin"
     return "unknown", "receiver expression %s" % src(recv)
+
+
+# ---------------------------------------------------------------------------
+# What a load changes on the loader, the load puts back.
+#
+# `%import` "extends the vocabulary of that load only" and "a failed load
+# leaves nothing behind": the fields of the configuration loader that code
+# reachable from a load re-binds (discovered: every `self.F = ...` of a loader
+# class outside its constructor) must be re-assigned by the top-level load
+# function on every path from the parse call to either exit -- or reset, before
+# the parse call, to a value no earlier load can have changed -- so that the
+# next load by the same loader starts from the constructor's state.
+RESTORE_EXEMPT = {
+    "_loader": "written on the very path that sets the private-schema flag "
+               "and read only after that write (decision table of "
+               "importSchemaComponent == reference, C12.R3): once the flag "
+               "is restored the stale value is never read",
+}
+
+
+def restore_check(ctx, rule):
+    from zcstatic import cfg as C
+    run, m, P = ctx.run, ctx.model, ctx.program
+    loaders = [CL] + m.subclasses(CL)
+    root = m.fn(CL + ".loadResource")
+    reach = P.reachable([root])
+    writers = {}
+    for cq in loaders:
+        c = m.classes[cq]
+        for fld, stores in c.fields.items():
+            for st, meth in stores:
+                o = m.owner(meth)
+                if o.name == "__init__" or o.qualname not in reach:
+                    continue
+                if o is root:
+                    continue
+                writers.setdefault(fld, set()).add(o.qualname)
+    run.analysed.setdefault("restore_rule", {}).update({
+        "loader_fields_rebound_during_a_load": {k: sorted(v) for k, v in
+                                                sorted(writers.items())},
+        "top_level_load_function": root.qualname})
+    if not writers:
+        raise AnalysisError("%s: no loader field is re-bound during a load "
+                            "(anchor vanished: importSchemaComponent no "
+                            "longer replaces the schema?)" % rule)
+    g = C.build(root)
+    selfn = root.params[0]
+    # the calls through which the writers are reached
+    starts = []
+    for n in g.live_nodes():
+        if n.ast is None or n.kind not in ("stmt", "test", "with_enter"):
+            continue
+        a = n.ast.context_expr if n.kind == "with_enter" else n.ast
+        for x in ast.walk(a):
+            if not isinstance(x, ast.Call):
+                continue
+            try:
+                cs = P.resolve_call(root, x)
+            except Exception:
+                cs = []
+            tgt = [c.fn for c in cs if c.kind == "repo"]
+            if not tgt:
+                continue
+            sub = P.reachable(tgt)
+            if any(w in sub for ws in writers.values() for w in ws):
+                starts.append(n)
+                break
+    if not starts:
+        raise AnalysisError("%s: %s contains no call that reaches the "
+                            "functions re-binding %s" % (
+                                rule, root.qualname, sorted(writers)))
+    for fld, ws in sorted(writers.items()):
+        construct = "self.%s restored after the load" % fld
+        if fld in RESTORE_EXEMPT:
+            run.ok(rule, root.qualname, construct,
+                   "reasoned: " + RESTORE_EXEMPT[fld], loc=m.loc(root,
+                                                                 root.node),
+                   nontrivial=False)
+            continue
+
+        def restores(n, fld=fld):
+            if n.kind != "stmt" or not isinstance(n.ast, ast.Assign):
+                return False
+            for t in n.ast.targets:
+                for tt in (t.elts if isinstance(t, ast.Tuple) else [t]):
+                    if isinstance(tt, ast.Attribute) and isinstance(
+                            tt.value, ast.Name) and tt.value.id == selfn \
+                            and tt.attr == fld:
+                        return True
+            return False
+        def resets(n, fld=fld):
+            """A re-assignment to a value that does not depend on earlier
+            loads: a constant, or a field only the constructor writes."""
+            if not restores(n):
+                return False
+            v = n.ast.value
+            if isinstance(v, ast.Tuple) or len(n.ast.targets) != 1:
+                return False
+            if isinstance(v, ast.Constant):
+                return True
+            if isinstance(v, ast.Attribute) and isinstance(
+                    v.value, ast.Name) and v.value.id == selfn \
+                    and v.attr != fld:
+                ws2 = set()
+                for cq in loaders:
+                    for st, meth in m.classes[cq].fields.get(v.attr, []):
+                        ws2.add(m.owner(meth).name)
+                return ws2 == {"__init__"}
+            return False
+        okb, _ = g.must_pass([g.entry], resets, starts)
+        if okb:
+            run.ok(rule, root.qualname, construct,
+                   "every path from the entry of the load to the parse call "
+                   "first re-assigns self.%s to a value no earlier load can "
+                   "have changed (re-bound during a load by %s): each load "
+                   "starts from the constructor's state"
+                   % (fld, ", ".join(sorted(ws))),
+                   loc=m.loc(root, root.node))
+            continue
+        bad = None
+        for s in starts:
+            ok, off = g.must_pass([x for _, x in s.succ], restores,
+                                  [g.exit, g.raise_exit])
+            if not ok:
+                bad = (s, off)
+                break
+        if bad is None:
+            run.ok(rule, root.qualname, construct,
+                   "every path from the parse call to the normal and the "
+                   "exceptional exit re-assigns self.%s (re-bound during a "
+                   "load by %s)" % (fld, ", ".join(sorted(ws))),
+                   loc=m.loc(root, root.node))
+        else:
+            s, off = bad
+            run.fail(rule, root.qualname, construct,
+                     "self.%s is re-bound during a load (by %s) and %s does "
+                     "not put it back on the way to its %s exit: the next "
+                     "load by the same loader starts from what this load "
+                     "left (vocabulary of a %%import, also of a failed one)"
+                     % (fld, ", ".join(sorted(ws)), root.qualname,
+                        "exceptional" if off is g.raise_exit else "normal"),
+                     loc=m.loc(root, s.ast),
+                     witness={"field": fld, "writers": sorted(ws),
+                              "from": src(s.ast)[:80],
+                              "exit": off.kind})
